@@ -144,3 +144,52 @@ Fixpoint run_macros (global : option config) (invs : list invocation) (script : 
   | [] => []
   | inv :: r => let s := run_macro global inv script in s :: run_macros global r (m_script s)
   end.
+
+(* ------------------------------------------------------------------ a whole process
+   The global holder is set at most once (C18): [PSet] offers the observed client [cfg], [PSetOther]
+   offers another client whose sink nobody observes; whoever comes first wins, later offers are
+   ignored.  [PInvoke] is one macro invocation.  The observation of an invocation is what the
+   OBSERVED client's sink and handler saw, whether the invocation panicked, and the evaluation log. *)
+Inductive pstep := PSet | PSetOther | PInvoke (inv : invocation).
+
+Record pobs := {
+  po_panicked : bool; po_stuck : bool;
+  po_emitted : list str; po_handled : list merror; po_evals : list expr }.
+
+Definition offer (g : option (bool * config)) (mine : bool) (c : config) : option (bool * config) :=
+  match g with None => Some (mine, c) | Some _ => g end.
+
+Fixpoint run_process (cfg other : config) (g : option (bool * config)) (script : list sink_outcome)
+         (steps : list pstep) : list pobs :=
+  match steps with
+  | [] => []
+  | PSet :: r => run_process cfg other (offer g true cfg) script r
+  | PSetOther :: r => run_process cfg other (offer g false other) script r
+  | PInvoke inv :: r =>
+    let mine := match g with Some (b, _) => b | None => true end in
+    let s := run_macro (option_map snd g) inv (if mine then script else []) in
+    {| po_panicked := m_panicked s; po_stuck := m_stuck s;
+       po_emitted := if mine then m_emitted s else [];
+       po_handled := if mine then m_handled s else [];
+       po_evals := m_evals s |}
+    :: run_process cfg other g (if mine then m_script s else script) r
+  end.
+
+Definition is_invoke (st : pstep) : bool := match st with PInvoke _ => true | _ => false end.
+
+
+(* the reference for a process whose holder holds [cfg]: the tagged quiet sends, one after the other *)
+Fixpoint reference_sends (cfg : config) (invs : list invocation) (script : list sink_outcome)
+  : list (option outcome1) :=
+  match invs with
+  | [] => []
+  | inv :: r =>
+    match send_call cfg Quiet (reference_call inv) script with
+    | Some (o, rest) => Some o :: reference_sends cfg r rest
+    | None => None :: reference_sends cfg r script
+    end
+  end.
+
+Definition invocations (steps : list pstep) : list invocation :=
+  flat_map (fun st => match st with PInvoke inv => [inv] | _ => [] end) steps.
+
